@@ -1,5 +1,6 @@
 import Driver.C11
 import Driver.C16
+import Driver.C14
 import Driver.C20
 /-!
 Model/oracle driver.  `bsdriver <property>`: stdin lines `id<TAB>case<TAB>obs`,
@@ -13,6 +14,8 @@ def dispatch (prop : String) (c obs : String) : String × String × Bool :=
   match prop with
   | "C11" => let m := C11.run c; (m, if m == obs then "ok" else "differs-from-plain-rows-model", m == obs)
   | "C20" => let m := C20.run c; (m, if m == obs then "ok" else "scope-values-differ-from-additive-model", m == obs)
+  | "C14" => C14.runSched c obs
+  | "C14live" => C14.runLive c obs
   | "C16" => C16.runDiff c obs
   | "C16inv" => C16.runInv c obs
   | _ => ("unknown-property", "unknown-property", false)
